@@ -1039,6 +1039,10 @@ def run_history(case):
                         detail = {k: [doc.get(k), d2.get(k)] for k in diff[:2]}
                     except ValueError:
                         diff, detail = ["<not json>"], {}
+                    if not detail:  # equal as Python values (1 vs 1.0 vs true, key order): show the bytes
+                        i = next((j for j, (x, y) in enumerate(zip(body1, b)) if x != y), min(len(body1), len(b)))
+                        detail = {"first_differing_byte": i, "first": body1[max(0, i - 60): i + 40].decode("utf-8", "replace"),
+                                  "now": b[max(0, i - 60): i + 40].decode("utf-8", "replace")}
                     V(f"{tag}: snapshot written from the LOADED state differs from the first body in section(s) {diff}: "
                       f"{short(detail, 900)}", "rewrite-differs")
                 try:
@@ -1372,7 +1376,7 @@ KNOWN_PROBES = {
 
 
 SUBCHECKS = [
-    Sub("roundtrip", sub_roundtrip, quick={"n": 320, "max_gens": 3, "max_edges": 6, "max_salts": 3},
+    Sub("roundtrip", sub_roundtrip, quick={"n": 400, "max_gens": 3, "max_edges": 6, "max_salts": 3},
         thorough={"n": 2500, "max_gens": 3, "max_edges": 10, "max_salts": 4}, shards_quick=4, shards_thorough=16,
         replay=replay_roundtrip),
     Sub("discovery", sub_discovery, quick={"n": 150, "max_salts": 5}, thorough={"n": 1000, "max_salts": 8},
